@@ -135,12 +135,12 @@ theorem twinMove_sound {E : Rel} {rP rQ : Loc → Val} (hE : Holds E rP rQ) (dQ 
     simp only [List.mem_singleton] at hl hv
     rw [upd_other _ _ hl, upd_other _ _ hv]; exact hE _ _ hin
 
-theorem swapE_sound {E : Rel} {rP rQ : Loc → Val} (hE : Holds E rP rQ) (a b : Loc) :
-    Holds (swapE E a b) rP (upd (upd rQ a (rQ b)) b (rQ a)) := by
+theorem swapE_sound (vsz : Loc → Nat) {E : Rel} {rP rQ : Loc → Val} (hE : Holds E rP rQ) (a b : Loc) (size : Nat) :
+    Holds (swapE vsz E a b size) rP (upd (upd rQ a (rQ b)) b (rQ a)) := by
   intro l v hm
   simp only [swapE, List.mem_map, Prod.mk.injEq] at hm
   obtain ⟨⟨xl, xv⟩, hx, rfl, rfl⟩ := hm
-  have := hE _ _ hx
+  have := hE _ _ (List.mem_filter.mp hx).1
   unfold swapLoc
   by_cases h1 : xl = a
   · subst h1
